@@ -234,7 +234,8 @@ impl BitFont {
         let length = u32::from_le_bytes(data[16..20].try_into().unwrap()) as i32;
         let charsize = u32::from_le_bytes(data[20..24].try_into().unwrap()) as i32;
         let expected_len = (length as i64) * (charsize as i64) + headersize as i64;
-        if length < 0 || charsize < 0 || headersize < 32 || expected_len != data.len() as i64 {
+        // a glyph has at least one byte: without that a header alone could declare billions of glyphs
+        if length < 0 || charsize < 0 || (charsize == 0 && length > 0) || headersize < 32 || expected_len != data.len() as i64 {
             return Err(FontError::LengthMismatch(data.len(), expected_len as usize).into());
         }
         let height = u32::from_le_bytes(data[24..28].try_into().unwrap()) as usize;
